@@ -408,7 +408,28 @@ def run_times(params, known):
     return dict(name=params['name'], evaluations=count, nontrivial_keys=sorted(keys), violations=out_v, known=kn, samples=[])
 
 
+ODD_BTSD = [b'', b'\x00', b'\x18\x2a', b'\x3a\x00\x01\x00\x00', b'\x63abc', b'\x41\x00', b'\x80', b'\x81\x01', b'\x82\x01\x02',
+            b'\x82\x01\x63abc', b'\x82\x63abc\x01', b'\x83\x01\x02\x03', b'\x82\x81\x01\x02', b'\x82\x01\x81\x02',
+            b'\x82\x03\x82\x01\x02', b'\x82\x01\x80', b'\xa0', b'\xa1\x01\x02', b'\xf6', b'\xf5', b'\xf9\x3c\x00', b'\xc1\x01',
+            b'\x9f\x01\xff', b'\xff\xfe', b'\x1c', b'\x82\x01', bytes(range(0x60, 0x70))]
+
+
+def gen_odd_btsd():
+    '''Extension blocks of a known type whose block-type-specific data is not what that type
+    defines (it may be ciphertext under a confidentiality block, or simply foreign): any CBOR
+    shape, truncated CBOR, not CBOR.  The bundle is well formed at the RFC 9171 level; the data
+    must survive decoding and re-encoding octet for octet.'''
+    for typ in (6, 7, 10, 11, 12):
+        for (i, data) in enumerate(ODD_BTSD):
+            for kind in (0, 2):
+                b = base_bundle(kind)
+                pay = b['blocks'][-1]
+                b['blocks'] = [dict(type=typ, num=2, flags=0, crc_type=(0, 1, 2)[i % 3], data=data), pay]
+                yield ('type-%d btsd=%s k%d' % (typ, data.hex(), kind), b)
+
+
 GENERATORS = {
+    'odd-btsd': gen_odd_btsd,
     'many-blocks': gen_many_blocks,
     'field-sweeps': gen_field_sweeps,
     'flag-subsets': gen_flag_subsets,
@@ -457,7 +478,7 @@ def run_chunk(params, known):
 def scenarios(tier):
     out = []
     plan = [('field-sweeps', 4), ('flag-subsets', 2), ('product', 8), ('status-reports', 4),
-            ('block-lists', 8), ('many-blocks', 2 if tier == 'quick' else 8)]
+            ('block-lists', 8), ('many-blocks', 2 if tier == 'quick' else 8), ('odd-btsd', 1)]
     for (space, parts) in plan:
         for part in range(parts):
             name = '%s-%d/%d' % (space, part + 1, parts)
@@ -474,6 +495,7 @@ def scenarios(tier):
 ASSUMPTIONS = [
     'unsigned fields take the values at every CBOR head-width boundary (0,1,23,24,255,256,65535,65536,2^32-1,2^32,2^64-1); values strictly in between are not enumerated',
     'extension-block lists of up to three blocks from a menu of nine (previous node, age, hop count, BIB, BCB, unknown types)',
+    'known-type extension blocks (previous node, age, hop count, BIB, BCB) carrying 27 kinds of foreign block-type-specific data (other CBOR shapes, truncated CBOR, not CBOR)',
     'bundles with n extension blocks for every n up to 40 and around 24 / 256 top-level items (thorough: every n up to 300)',
     'DTN time input forms (datetime, ISO text): every millisecond of windows after the epoch, around 2^k seconds for k = 10..35 and at three later dates (2000 ms wide, thorough 20000 ms), against integer arithmetic',
     'the independent codec (vmc/oracle/bpv7.py, cbor_min.py, crc.py) is the reference for RFC 9171 / RFC 8949',
